@@ -132,6 +132,7 @@ TP_Run(buf, i, st, flags) ==
     CASE st.state \in {"paramInit", "paramInitNxtVal", "paramFNxt"} ->
            IF isWS THEN TP_WS(buf, i, st, st, flags)
            ELSE IF c = sep THEN Step(st)                                     \* allow empty params, skip them
+           ELSE IF isTerm THEN TP_Ret([st EXCEPT !.state = "paramFIN"], i, OK) \* terminator where a param could start
            ELSE IF ~ok THEN Bad
            ELSE IF st.state = "paramFNxt" THEN TP_MoreValues(st, i)
            ELSE Step([st EXCEPT !.state = "paramName", !.name = PFSet(i, i), !.all = PFSet(i, i)])
